@@ -497,6 +497,12 @@ func (filter *TrzszFilter) handleTrzsz() {
 	}
 
 	defer filter.transfer.CompareAndSwap(transfer, nil)
+	defer func() {
+		// a stop prompt that is still open has nothing left to ask about
+		if promptPipe := filter.promptPipe.Load(); promptPipe != nil {
+			_ = promptPipe.Close()
+		}
+	}()
 
 	done := make(chan struct{}, 1)
 	go func() {
